@@ -106,17 +106,25 @@ class _NPProxy:
         self.view = self.buf[self.pad:self.pad + size]
         self.view[:] = 0
         self.ref = self.buf[:self.pad].tobytes()
+        # remember the tables handed out recently (in this process): a
+        # solve() that keeps using an OLD table must not escape the guards
+        _NPProxy.RECENT.append((self.buf, self.pad))
+        del _NPProxy.RECENT[:-16]
         return self.view
 
+    RECENT: list = []
+
     def guard_damage(self):
-        if self.buf is None:
-            return 0
-        p = self.pad
-        if self.buf[:p].tobytes() == self.ref \
-                and self.buf[len(self.buf) - p:].tobytes() == self.ref:
-            return 0
-        return int((self.buf[:p] != GUARD).sum()
-                   + (self.buf[len(self.buf) - p:] != GUARD).sum())
+        dmg = 0
+        for buf, p in _NPProxy.RECENT:
+            lo = buf[:p]
+            hi = buf[len(buf) - p:]
+            if (lo == GUARD).all() and (hi == GUARD).all():
+                continue
+            dmg += int((lo != GUARD).sum() + (hi != GUARD).sum())
+            lo[:] = GUARD          # count each damage once
+            hi[:] = GUARD
+        return dmg
 
 
 class _Stub:
@@ -359,9 +367,13 @@ def report_solve(ctx, fam, key, rec):
     idx, start, script, at = rec
     m = family_matrix(fam, idx)
     k2, at2, trace, mt = solve_case(m, algo, start, script)
+    hidden = ""
     if k2 != kind:
-        raise HarnessError(f"C06 solve failure not reproducible: {key} "
-                           f"{rec} -> {k2}")
+        # The enumeration is deterministic (scripted random source), so a
+        # run that fails inside it but not when executed alone means that
+        # solve() depends on earlier runs in the same process (hidden
+        # state, e.g. a cached table).
+        hidden = "|only after earlier runs in the same process"
     n = len(m)
     draws = [list(script[k:k + 2]) for k in range(0, len(script), 2)]
     got = trace[at] if at < len(trace) else None
@@ -369,8 +381,9 @@ def report_solve(ctx, fam, key, rec):
     if isinstance(got, tuple) and M.is_permutation(got[0], n):
         exact = M.tour_length_exact(m, got[0])
     ctx.violation(
-        f"{algo}.solve|{KIND[kind]}|{mc}",
-        f"{KIND[kind]}: {algo.upper()} solve() on n={n} matrix={m} start "
+        f"{algo}.solve|{KIND[kind]}|{mc}{hidden}",
+        f"{KIND[kind]}{hidden.replace('|', ' [')}{']' if hidden else ''}: "
+        f"{algo.upper()} solve() on n={n} matrix={m} start "
         f"tour={list(start)} draws={draws}: hand-over #{at} (0 = initial "
         f"evaluation) was {got}, exact length of that x = {exact}, "
         f"upper bound={sum(max(r) for r in m)}; "
